@@ -174,8 +174,8 @@ func loadTargets() {
 // ---------------------------------------------------------------------------
 // Skip table: constructs that are NOT generated because they hang the worker
 // (each costs HangSecs of wall time) or are non-terminating by the language
-// definition. Every entry names the finding it belongs to (findings/C09.json,
-// "witness": null) or says "by-design".
+// definition. Every entry names the finding it belongs to (findings/C09.json;
+// its witness is a probe case, see execProbe) or says "by-design".
 //
 // A pattern matches a call when the function and mode match and the first
 // len(Args) arguments match position by position: a pool name matches
